@@ -351,8 +351,11 @@ def run():
     # hook `lowerer-op-trace`: every operation on the Lowerer's id state, in order -> operations of Model/Lowerer.v with what the
     # code observed -> replay_verdict evaluated inside Coq: every operation must be a step of the machine, the state after it must
     # show the observed ids / transform / redirect map, and the finished run must BE the RQ the implementation returned
-    tr = harness("c16_trace", [{"src": p} for p, _ in accepted])
+    tr_all = harness("c16_trace", [{"src": p} for p in progs])
+    tr_of = dict(zip(progs, tr_all))
+    tr = [tr_of[p] for p, _ in accepted]
     cases, nohook = [], 0
+    hook_missing = {}
     norm_of = dict(accepted)
     for (p, q), a in zip(accepted, tr):
         ck.count("lowerer-op-trace", p)
@@ -374,7 +377,10 @@ def run():
             ck.violation("two compilations of one program give different RQs (ids are not a function of the program)", {"program": p})
             continue
         try:
-            term, nops, hist = c16_trace.to_ops(a["ops"], a["ok"])
+            term, nops, hist = c16_trace.to_ops(a["ops"])
+        except c16_trace.HookMissing as ex:
+            hook_missing[str(ex)] = hook_missing.get(str(ex), 0) + 1
+            continue
         except (c16_trace.TraceError, rqcoq.RqConvError, KeyError, TypeError) as ex:
             ck.stat("lowerer-op-trace", "TRACE-DOES-NOT-PARSE")
             ck.violation("the op trace of lowering.rs does not parse into operations of the Lowerer machine (hook or lowering.rs changed?): %s" % ex,
@@ -387,11 +393,14 @@ def run():
         # fail closed: without the hook there is no trace, and nothing was compared
         ck.violation("hook `lowerer-op-trace` (verif:lowerer_op lines of semantic/lowering.rs, /repo 120eb8c) logged nothing for %d accepted program(s): "
                      "the Lowerer machine was NOT compared with the code" % nohook, {"programs_without_trace": nohook}, no_input=True)
+    for why, cnt in hook_missing.items():
+        ck.violation("%s: %d trace(s) could not be replayed -- the Lowerer machine was NOT compared with the code" % (why, cnt), {"reason": why, "programs": cnt}, no_input=True)
     trace_ok = 0
     if cases and coq_ok:
         try:
-            # both verdicts of one trace in one expression (the term is parsed once)
-            both = coq_eval(c16_trace.COQ_HEADER, ["(let l := %s in let q := %s in (replay_verdict l q, replay_strict_verdict l q))" % (t, qc) for _, t, qc, _, _ in cases])
+            # both verdicts of one trace in one expression (the term is parsed once).  The frames of OEndTable / OEndInline are
+            # computed by the machine from the lineage (push_select_m) and compared with what push_select returned (BFrame)
+            both = coq_eval(c16_trace.COQ_HEADER, ["(let l := %s in let q := %s in (replay_l_verdict false l q, replay_l_verdict true l q))" % (t, qc) for _, t, qc, _, _ in cases])
             vals = [b[0] if isinstance(b, tuple) else None for b in both]
             strict = dict((c[0], b[1]) for c, b in zip(cases, both) if isinstance(b, tuple))
         except RuntimeError as ex:
@@ -404,17 +413,15 @@ def run():
                 ck.stat("lowerer-op-trace", "agrees")
             else:
                 ck.stat("lowerer-op-trace", "DISAGREES")
-                where = ("operation %d of %d is not a step of the machine, or the state after it does not show what the code observed" % (v - 1, nops)) if isinstance(v, int) and v <= nops \
+                kinds = c16_trace.op_kinds(a["ops"])
+                where = ("operation %d of %d (%s) is not a step of the machine, or the state after it / the frame it computes does not show what the code observed" % (v - 1, nops, kinds[v - 1])) if isinstance(v, int) and v <= nops \
                     else "all %d operations agree but the finished run is not the RQ the implementation returned" % nops
                 ck.violation("Model/Lowerer.v disagrees with semantic/lowering.rs: %s" % where,
                              {"program": p, "verdict": v, "operations": nops, "events": a["ops"][:120]})
         # clause 2 as an invariant of the machine: the same trace under the STRICT machine (vstep = step + every emitted transform uses
-        # only ids of the visible set of the pipeline under construction).  strict_trace_replay_gives_wf_rq: a strict replay proves
-        # rq_wf of the RQ; conversely the first operation the strict machine refuses is where an out-of-scope id reached the
-        # Lowerer.  The verdict must agree with rq_diags evaluated on the finished RQ, program by program.
-        ops_of = {}
-        for p, term, qc, nops, a in cases:
-            ops_of[p] = a["ops"]
+        # only ids of the visible set of the pipeline under construction).  strict replay => rq_wf of the RQ by theorem; conversely the
+        # first operation the strict machine refuses is where an out-of-scope id reached the Lowerer.  The verdict must agree with
+        # rq_diags evaluated on the finished RQ, program by program.
         agreeing = [(c, v) for c, v in zip(cases, vals or []) if v == 0]
         svals = [strict.get(c[0]) for c, _ in agreeing]
         for ((p, term, qc, nops, a), _), sv in zip(agreeing, svals):
@@ -423,13 +430,73 @@ def run():
             if sv == 0 and not d:
                 ck.stat("strict-machine", "strict-replay-ok = rq_wf")
             elif sv != 0 and d:
-                kinds = c16_trace.op_kinds(a["ops"], a["ok"])
+                kinds = c16_trace.op_kinds(a["ops"])
                 k = kinds[sv - 1] if isinstance(sv, int) and 0 < sv <= len(kinds) else "?"
                 ck.stat("strict-machine", "refused = not rq_wf (known finding), refused operation: " + k)
             else:
                 ck.stat("strict-machine", "MISMATCH")
                 ck.violation("the strict Lowerer machine (Model/LowererVis.v) and rq_diags disagree on one program: strict verdict %s, diagnostics %s" % (sv, d[:3]),
                              {"program": p, "strict_verdict": sv, "diagnostics": [list(x) for x in d]})
+        # compilations that ended in an error after lowering had begun: the operations performed up to the error must be a run of
+        # the machine, and when the error came out of push_select the model's push_select must fail on the same input
+        pre = []
+        accepted_set = set(p for p, _ in accepted)
+        for p in progs:
+            a = tr_of[p]
+            if p in accepted_set or "ok" in a or not a.get("ops"):
+                continue
+            try:
+                term, nops, pend = c16_trace.to_prefix(a["ops"])
+            except c16_trace.HookMissing:
+                continue
+            except (c16_trace.TraceError, rqcoq.RqConvError, KeyError, TypeError) as ex:
+                ck.count("op-trace-prefix", p)
+                ck.stat("op-trace-prefix", "TRACE-DOES-NOT-PARSE")
+                ck.violation("the op trace of a rejected program does not parse into operations of the Lowerer machine: %s" % ex, {"program": p, "error": str(ex)})
+                continue
+            pre.append((p, term, nops, pend, a))
+        if pre:
+            pv = coq_eval(c16_trace.COQ_HEADER, ["(replay_prefix_verdict %s %s)" % (t, "None" if pe is None else "(Some %s)" % pe) for _, t, _, pe, _ in pre])
+            for (p, term, nops, pend, a), v in zip(pre, pv):
+                ck.count("op-trace-prefix", p)
+                ck.stat("op-trace-prefix", ("prefix-is-a-run" if v == 0 else "PREFIX-IS-NOT-A-RUN") + (" (error raised by push_select: the model fails too)" if pend and v == 0 else ""))
+                if v != 0:
+                    ck.violation("the operations lowering.rs performed before it reported an error are not a run of the Lowerer machine (verdict %s of %d%s)"
+                                 % (v, nops, "; push_select failed in the code but not in the model" if pend and isinstance(v, int) and v == nops + 1 else ""),
+                                 {"program": p, "verdict": v, "errors": " | ".join(e.get("reason", "") for e in a.get("err", []))[:300], "events": a["ops"][:120]})
+        # toposort_tables: input and output of the call (hooks/toposort-tables.diff) against the toposort model, and the order in which
+        # tables are then lowered (extern / table events) against its output
+        tcases, no_topo = [], 0
+        for p in progs:
+            a = tr_of[p]
+            if not a.get("ops"):
+                continue
+            if not a.get("toposort"):
+                no_topo += 1
+                continue
+            for t in a["toposort"]:
+                try:
+                    tcases.append((p, a, t, c16_trace.toposort_case(t)))
+                except (KeyError, TypeError, ValueError) as ex:
+                    ck.violation("hook toposort_tables logged something unexpected: %s" % ex, {"program": p})
+        if no_topo:
+            ck.violation("hook `toposort_tables` (hooks/toposort-tables.diff) logged nothing for %d program(s) that were lowered: the toposort model was NOT "
+                         "compared with the code" % no_topo, {"programs_without_toposort_event": no_topo}, no_input=True)
+        if tcases:
+            tv = coq_eval(c16_trace.COQ_HEADER, [c[3][0] for c in tcases])
+            for (p, a, t, (expr, order, names)), v in zip(tcases, tv):
+                ck.count("toposort-tables", p)
+                ok = isinstance(v, tuple) and v[0] == "Some" and list(v[1]) == order
+                lowered = c16_trace.lowered_names(a["ops"])
+                expect = [n_[-1] for n_ in names]
+                # a compilation that failed stops lowering tables early: the names lowered must be a prefix of the order
+                order_ok = lowered == expect[:len(lowered)] and ("ok" not in a or len(lowered) == len(expect))
+                ck.stat("toposort-tables", "agrees" if ok and order_ok else "DISAGREES")
+                ck.stat("toposort-tables", "tables=%d" % min(len(order), 6))
+                if not ok:
+                    ck.violation("utils/toposort.rs and the toposort model (Model/Lowerer.v) disagree", {"program": p, "event": t, "model": str(v)})
+                elif not order_ok:
+                    ck.violation("tables are not lowered in the order toposort_tables returned", {"program": p, "order": names, "lowered": lowered})
         # the comparison has teeth: a trace with one id changed, one event dropped or one redirect pair removed must NOT replay
         muts, meta = [], []
         for p, term, qc, nops, a in cases[:ck.n(60, 400)]:
@@ -440,7 +507,7 @@ def run():
                     ck.count("op-trace-selftest", p + "|" + name)
                     ck.stat("op-trace-selftest", name + ":rejected-by-grammar")
                     continue
-                muts.append("(replay_ok %s %s)" % (t2, qc))
+                muts.append("(replay_l_ok false %s %s)" % (t2, qc))
                 meta.append((p, name))
         if muts:
             for (p, name), v in zip(meta, coq_eval(c16_trace.COQ_HEADER, muts)):
